@@ -5,8 +5,9 @@ import GoUefi.Lemmas.Pkcs7Verify
 Only the property theorems and their non-vacuity examples live here.
 Model: `GoUefi/Model/Pkcs7.lean` (`Attrs.marshal` = Go `Attributes.Marshal`, `attrLoop` = the loop of
 `parseAttributes`).  `Impl.Canon a body` (`GoUefi/Lemmas/Pkcs7Verify.lean`) says that `body` is
-exactly the layout `Marshal` writes for the values `a`: contentType, [signingTime],
-messageDigest, then the other attributes, all OIDs valid — i.e. `attrsBody a = some body`.
+exactly the layout `Marshal` writes for the values `a`: the encodings of contentType, [signingTime],
+messageDigest and the other attributes in DER SET OF order (sorted by `bytes.Compare`, F19), all
+OIDs valid — i.e. `attrsBody a = some body`.
 It is stated from the parsed side (no OID round trip is needed): the producer is canonical when
 its attribute body coincides with the re-encoding of what was parsed from it.
 
@@ -90,8 +91,9 @@ example : ({ attrs with raw := some (Der.addASN1 Der.tSET body) } : Attrs).marsh
 example : (parseP7 allOk blob).map (fun p => p.signers.map (·.attrs)) =
     some [some { attrs with raw := some (Der.addASN1 Der.tSET body) }] := by decide +kernel
 
-/-- A producer that writes messageDigest first and no signing time: the body is *not* canonical
-    (`Marshal` of the parsed values differs from the signed bytes) … -/
+/-- A producer that writes contentType before messageDigest (not the DER SET OF order: here the
+    messageDigest attribute has the shorter, hence smaller, encoding) and no signing time: the body
+    is *not* canonical (`Marshal` of the parsed values differs from the signed bytes) … -/
 example : attrLoop bodyReordered.length bodyReordered { raw := some (Der.addASN1 Der.tSET bodyReordered) } =
     some { attrsReordered with raw := some (Der.addASN1 Der.tSET bodyReordered) } := by
   decide +kernel
@@ -99,6 +101,10 @@ example : ¬ Canon { attrsReordered with raw := some (Der.addASN1 Der.tSET bodyR
     bodyReordered := by decide +kernel
 example : ({ attrsReordered with raw := some (Der.addASN1 Der.tSET bodyReordered) } : Attrs).marshal ≠
     .ok (Der.addASN1 Der.tSET bodyReordered) := by decide +kernel
+/-- the DER-sorted body for the same values (messageDigest first) is the canonical one -/
+example : Canon { attrsReordered with raw := some (Der.addASN1 Der.tSET bodyReordered) }
+    (attrSeq oidMessageDigest (Der.addOctets content) ++ attrSeq oidContentType (oidOr oid)) := by
+  decide +kernel
 /-- … and it verifies all the same, under the implementation and under the specification,
     because the signature is checked over the attributes as transmitted -/
 example : run toy blobReordered cert = some (.ok true) := by decide +kernel
